@@ -165,7 +165,7 @@ PROPS = {
         ],
         "rule": "c09: generated aggregation queries (count/sum/avg/variance/stddev, count distinct; users, orders via foreign key, join; WHERE; ungrouped or grouped by the public-valued key) x in-range databases (3-40 users, 0-4 orders each) x (ε, δ); "
                 "RANDOM() ≡ 0.25 (every Box–Muller draw is 0), multiplicity bound far above any unit's rows; original vs DP results compared group by group; non-trivial = the original result is non-empty. "
-                "dpagg (model ≡ implementation): tables t(pu, g public, x optional float/integer, one- or two-sided range) of 0-27 rows, 1-6 units, 1-3 groups, multiplicity 1/2/3/50: the real DP rewriting of count/sum/avg/variance/stddev GROUP BY g "
+                "dpagg (model ≡ implementation): tables t(pu, g public, x optional float/integer with a one- or two-sided range, y optional float in [0, 3A] with its own NULL pattern; one or both aggregated) of 0-27 rows, 1-6 units, 1-3 groups, multiplicity 1/2/3/50: the real DP rewriting of count/sum/avg/variance/stddev GROUP BY g "
                 "executed on SQLite with RANDOM() ≡ 1 (ln 1 = 0: noise exactly 0) against Qrlew.DpAgg.release on Float with the clipping constants read off the relation (checked to be multiplicity, A·multiplicity, ≥ A²·multiplicity); clipping is active in about 60% of the cases",
         "trusted_base": COMMON_TRUST + ["SQLite 3.40 + harness shims as executor", "Mathlib reals"],
         "assumptions": ["NULL (SQL, empty input / single row for var) vs 0 (DP expression) is accepted within 1e-3", "variance/stddev: population or sample value accepted", "extra groups in the DP result must be empty public groups"],
